@@ -3,9 +3,10 @@ From Bfe Require Import lib.Val lib.Bytes model.TlsRecord.
 Import ListNotations.
 Open Scope Z_scope.
 
-(* input : [ [suiteId vers kind mac bs expl ovh padstyle padx]  [VB write ...]  VB final-alert-payload (x0100 = close_notify, x = none)  [op ...]  cut  netchunk  rdbuf ]
+(* input : [ [suiteId vers kind mac bs expl ovh padstyle padx]  [VB write ...]  VB final-alert-payload (x0100 = close_notify, x = none)  [op ...]  cut  netchunk  rdbuf  [bufsize ...] ]   (buffer sizes of the Read calls made AFTER the first error)
      op  : [1 i off mask] flip | [2 i j] swap | [3 i j] dup | [4 i] drop | [5 i t v n] forge | [6 i n] trunc
-   output: [VB delivered  status  seq]   (what Conn.Read returned until its first error; final c.in.seq) *)
+   output: [VB delivered  status  seq  [[n status] ...]  wstatus]   (what Conn.Read returned until its first error;
+            final c.in.seq; byte count and status of every further Read; status of a Conn.Write made at the end) *)
 Definition dec_op (v : val) : option op :=
   match v with
   | VL [VZ 1; VZ i; VZ off; VZ m] => Some (OFlip i off m)
@@ -17,15 +18,16 @@ Definition dec_op (v : val) : option op :=
   | _ => None
   end.
 
-Record c42_in := mkIn { i_cfg : cfg; i_writes : list (list Z); i_close : list Z; i_script : list op; i_cut : Z }.
+Record c42_in := mkIn { i_cfg : cfg; i_writes : list (list Z); i_close : list Z; i_script : list op; i_cut : Z;
+                        i_more : list Z }.
 
 Definition dec_C42 (v : val) : option c42_in :=
   match v with
-  | VL [VL [VZ _; VZ vers; VZ kind; VZ mac; VZ bs; VZ expl; VZ ovh; VZ pad; VZ padx]; ws; VB close; VL ops; VZ cutn; VZ _; VZ _] =>
-    match as_LB ws, all_some (map dec_op ops) with
-    | Some writes, Some script =>
-      Some (mkIn (mkCfg kind mac bs expl ovh vers pad padx) writes close script cutn)
-    | _, _ => None
+  | VL [VL [VZ _; VZ vers; VZ kind; VZ mac; VZ bs; VZ expl; VZ ovh; VZ pad; VZ padx]; ws; VB close; VL ops; VZ cutn; VZ _; VZ _; more] =>
+    match as_LB ws, all_some (map dec_op ops), as_LZ more with
+    | Some writes, Some script, Some bufs =>
+      Some (mkIn (mkCfg kind mac bs expl ovh vers pad padx) writes close script cutn bufs)
+    | _, _, _ => None
     end
   | _ => None
   end.
@@ -85,7 +87,8 @@ Definition run_C42 (v : val) : val :=
     if wf_base x then
       let '(w, trail) := tampered_wire x in
       let '(d, st, seq) := receive sbody sopen (i_cfg x) w trail in
-      VL [VB d; VZ st; VZ seq]
+      VL [VB d; VZ st; VZ seq; VL (map (fun r => VL [VZ (fst r); VZ (snd r)]) (reads_after st (i_more x)));
+          VZ (write_after st)]
     else VErr 0
   | None => VErr 0
   end.
@@ -95,11 +98,15 @@ Definition agree_C42 (i o : val) : bool := val_eqb (run_C42 i) o.
    client wrote; if the adversary changed anything Read must end with a hard error (not io.EOF); if
    nothing was changed and the peer's CBC padding is acceptable for the version everything is delivered
    and Read ends the way the client's final alert says (io.EOF for close_notify, a dropped warning or no
-   alert; the remote error for a fatal alert; unexpected_message for a malformed one). *)
+   alert; the remote error for a fatal alert; unexpected_message for a malformed one).  And for every
+   number of further Read calls the total of delivered bytes stays that authenticated prefix: each of
+   them returns 0 bytes and the same error. *)
 Definition prop_C42 (i o : val) : bool :=
   match dec_C42 i, o with
-  | Some x, VL [VB d; VZ st; VZ _] =>
+  | Some x, VL [VB d; VZ st; VZ _; VL more; VZ _] =>
     wf_base x &&
+    (* the error is sticky: every further Read returns no byte and the same error *)
+    forallb (fun v => val_eqb v (VL [VZ 0; VZ st])) more &&
     is_prefix d (sent_bytes (i_writes x)) &&
     (if relevant x then negb (st =? 1)
      else if pads_ok x then (st =? clean_status (i_close x)) && bytes_eqb d (sent_bytes (i_writes x))
